@@ -81,13 +81,16 @@ func (gw *eventBasedGateway) run(ctx context.Context, sender tracing.ISenderHand
 						if atomic.CompareAndSwapInt32(&first, 0, 1) {
 							verifhook.Point("ebg.cas")
 							gw.tracer.Send(DeterminationMadeTrace{Node: gw.element})
+							// The map is read concurrently by the flows of the other
+							// alternatives (through terminate above), so it is never
+							// modified: the losers are told to terminate, the
+							// winner's own channel simply stays silent.
 							for terminationCandidateId, ch := range terminationChannels {
 								if sequenceFlowId != nil && terminationCandidateId != *sequenceFlowId {
 									ch <- true
+									close(ch)
 								}
-								close(ch)
 							}
-							terminationChannels = make(map[schema.IdRef]chan bool)
 							return action
 						} else {
 							return completeAction{}
